@@ -4,6 +4,7 @@ Each returns a list of violations {prop, cls, msg, ...}. See DESIGN.md section 8
 from __future__ import annotations
 
 import json
+import re
 from collections import defaultdict
 
 from dexsim.backend import ERROR_CLASSES, TERMINAL
@@ -176,6 +177,10 @@ def ground_truth(ix):
             if name is None or name in truth:
                 continue
             if e["action"] == "SUCCEED":
+                if e.get("replay_children"):
+                    # only a summary is recorded: the property exempts the context itself (its rebuilt result is C16's
+                    # and C02's subject), the operations inside it are judged on their own
+                    continue
                 x = last_exit.get(("fn" if e["type"] == "STEP" else "body", name))
                 if x is not None and "v" in x:
                     truth[name] = ("ret", x["v"])
@@ -215,7 +220,11 @@ def check_c02(ix):
                 continue
             if sig != first[0]:
                 cls = "delivery-changed"
-                if sig[0] == "raise" and first[0][0] == "raise" and sig[2] == first[0][2]:
+                if sig[0] == "ret" and first[0][0] == "ret" and _blank_wfcond_class(sig[1]) == _blank_wfcond_class(first[0][1]):
+                    # a value derived from the class of the exception user code caught from a wait_for_condition whose
+                    # check function raised: the known defect seen one step later (re-traversed context, batch item)
+                    cls = "wfcond-exception-class-changed"
+                elif sig[0] == "raise" and first[0][0] == "raise" and sig[2] == first[0][2]:
                     cls = "exception-class-changed"
                     if d["op"] == "wfcond":
                         cls = "wfcond-exception-class-changed"
@@ -229,6 +238,16 @@ def check_c02(ix):
                              f"{d['inv']} delivered {str(sig)[:160]}", pos=pos, seq=d["s1"]))
                 break
     return out
+
+
+_WFCOND_CAUGHT = re.compile(r'"[A-Za-z]+"((?:[\[\],\s]|"str"|"list")*"check failed")')
+
+
+def _blank_wfcond_class(js):
+    """Canonical JSON of a delivered value with the class name blanked in every record of an exception caught from a
+    wait_for_condition check function: the string that directly precedes the scripted message 'check failed' (used for
+    nothing else), at any depth of canonical nesting."""
+    return _WFCOND_CAUGHT.sub(r'"*"\1', js)
 
 
 def _only_error_type_differs(a, b):
@@ -458,7 +477,7 @@ def check_c06(ix, amo_positions=()):
         elif oc == "raise" and exp == "FAILED":
             out.append(V("C06", "misclassified-raise", f"invocation {inv} raised {info.get('exc_cls')} for non-retriable error {f['err']}",
                          seq=f["s"]))
-        elif oc == "FAILED" and exp == "raise":
+        elif oc == "FAILED" and exp == "raise" and not _failed_on_its_own(ix, inv, info):
             out.append(V("C06", "misclassified-failed", f"invocation {inv} returned FAILED for retriable error {f['err']}", seq=f["s"]))
     first_fail = {}
     for e in ix.kinds["api-end"]:
@@ -1167,6 +1186,42 @@ def check_c17(ix, cfg):
 INVOCATION_FAMILY = {"InvocationError", "StepInterruptedError", "BotoClientError", "CheckpointError", "GetExecutionStateError"}
 
 
+API_DERIVED = ("CheckpointError", "BackgroundThreadError", "GetExecutionStateError", "BotoClientError", "ClientError",
+               "ConnectionError", "InvocationError")
+
+
+def _malformed_error_object(err):
+    bad = []
+    for k in ("ErrorType", "ErrorMessage", "ErrorData"):
+        if err.get(k) is not None and not isinstance(err[k], str):
+            bad.append(f"{k} of type {type(err[k]).__name__}")
+    st = err.get("StackTrace")
+    if st is not None and not (isinstance(st, list) and all(isinstance(x, str) for x in st)):
+        bad.append("StackTrace that is not a list of strings")
+    extra = set(err) - {"ErrorType", "ErrorMessage", "ErrorData", "StackTrace"}
+    if extra:
+        bad.append(f"unknown keys {sorted(extra)}")
+    return ", ".join(bad)
+
+
+def _failed_on_its_own(ix, inv, info):
+    """The wrapper learns of a background checkpoint failure only through a durable call of the handler thread.
+    A handler that ends with its own (scripted) non-retriable exception while an asynchronous checkpoint is
+    failing never observes that failure, and FAILED with the handler's own error is then the correct
+    classification (the property only restricts WHEN the wrapper may raise)."""
+    et = ((info.get("ret") or {}).get("Error") or {}).get("ErrorType")
+    if et is None or et in API_DERIVED:
+        return False
+    for k in ("call-raise", "call-abort"):
+        if any(e["i"] == inv and e.get("cls") in API_DERIVED for e in ix.kinds[k]):
+            return False  # some durable call did observe the failure
+    for k in ("fn-exit", "user-raise", "call-raise"):
+        for e in ix.kinds[k]:
+            if e["i"] == inv and e.get("cls") == et and (k != "fn-exit" or e.get("outcome") == "raise"):
+                return True
+    return False
+
+
 def check_c18(ix, cfg):
     out = []
     w = ix.w
@@ -1195,6 +1250,10 @@ def check_c18(ix, cfg):
                 out.append(V("C18", "malformed-output", f"invocation {inv}: FAILED without Error and without a recorded execution result"))
             if oc == "FAILED" and "Error" in keys and not isinstance(ret["Error"], dict):
                 out.append(V("C18", "malformed-output", f"invocation {inv}: FAILED Error is {type(ret['Error']).__name__}"))
+            if oc == "FAILED" and isinstance(ret.get("Error"), dict):
+                bad = _malformed_error_object(ret["Error"])
+                if bad:
+                    out.append(V("C18", "malformed-error-object", f"invocation {inv}: FAILED Error has {bad}"))
             if oc == "PENDING" and (keys - {"Status"}):
                 out.append(V("C18", "malformed-output", f"invocation {inv}: PENDING output carries {sorted(keys)}"))
             if oc == "SUCCEEDED":
@@ -1232,11 +1291,17 @@ def check_c18(ix, cfg):
                 if not (b and b["n"] == 0 and opname == "checkpoint"):
                     out.append(V("C18", "wrong-classification", f"invocation {inv} returned {oc} although API call {f['call']} ({opname}) "
                                  f"failed with {f['err']} (expected {exp})", seq=f["s"]))
-            elif oc == "FAILED" and exp == "raise":
+            elif oc == "FAILED" and exp == "raise" and not _failed_on_its_own(ix, inv, info):
                 out.append(V("C18", "wrong-classification", f"invocation {inv} returned FAILED for retriable error {f['err']}", seq=f["s"]))
             elif oc == "raise" and exp == "FAILED" and info.get("exc_cls") in ("CheckpointError", "BackgroundThreadError"):
                 out.append(V("C18", "wrong-classification", f"invocation {inv} raised {info.get('exc_cls')} for non-retriable error {f['err']}",
                              seq=f["s"]))
+        for e in ix.kinds["applied"]:
+            if e["i"] == inv and isinstance(e.get("error"), dict):
+                bad = _malformed_error_object(e["error"])
+                if bad:
+                    out.append(V("C18", "malformed-error-object", f"invocation {inv}: {e['type']} {e['action']} for {e.get('name')} "
+                                 f"carries an Error with {bad}", seq=e["s"]))
         if r is not None:
             live = [n for n in r.get("live", []) if n.startswith("dex-handler")]
             if live:
@@ -1252,6 +1317,19 @@ def check_c18(ix, cfg):
             if later_end:
                 out.append(V("C18", "api-call-in-flight-at-return", f"invocation {inv}: API call {later_end[0]['call']} still in flight at return", seq=r["s"]))
     return out
+
+
+def _same_json(text, hx):
+    """The returned payload decodes to what the handler produced (its encoding is the SDK's business)."""
+    from dexsim.interp import _digest
+    if not isinstance(text, str):
+        return False
+    if len(text) == hx["size"] and _digest(text) == hx["digest"]:
+        return True
+    try:
+        return _digest(json.dumps(json.loads(text))) == hx["digest"]
+    except (ValueError, TypeError):
+        return False
 
 
 # --------------------------------------------------------------------------- C16
@@ -1297,8 +1375,12 @@ def check_c16(ix, cfg):
         if not hx["serialisable"]:
             continue
         ret = info["ret"]
-        big = hx["size"] > rl
         recs = [e for e in ix.kinds["applied"] if e["type"] == "EXECUTION" and e["i"] == inv]
+        # the limit is one of bytes on the wire: a result is certainly too large when even its most compact JSON encoding
+        # (raw UTF-8) exceeds it, certainly small when its \u-escaped encoding fits; in between either treatment is right
+        big = hx.get("size_min", hx["size"]) > rl
+        if not big and hx["size"] > rl:
+            big = bool(recs)
         if any(e["i"] == inv and not e.get("ok") for e in ix.kinds["api-end"]):
             continue
         if big:
@@ -1308,13 +1390,14 @@ def check_c16(ix, cfg):
             if not recs or recs[0]["s"] > r["s"] or recs[0]["action"] != "SUCCEED":
                 out.append(V("C16", "large-result-not-recorded", "large handler result was not recorded as the execution result before the "
                              "invocation returned", seq=r["s"]))
-            elif recs[0]["size"] != hx["size"]:
-                out.append(V("C16", "large-result-altered", f"recorded execution result has {recs[0]['size']} bytes, handler produced {hx['size']}",
+            elif recs[0].get("jdigest") != hx["digest"]:
+                out.append(V("C16", "large-result-altered", f"recorded execution result ({recs[0]['size']} characters) does not decode to what "
+                             f"the handler produced ({hx['size']} characters)",
                              seq=r["s"]))
         else:
             if recs:
                 out.append(V("C16", "small-result-recorded", "EXECUTION record sent although the result fits the response", seq=r["s"]))
-            elif info["outcome"] == "SUCCEEDED" and len(ret.get("Result") or "") != hx["size"]:
+            elif info["outcome"] == "SUCCEEDED" and not _same_json(ret.get("Result"), hx):
                 out.append(V("C16", "result-altered", f"returned payload has {len(ret.get('Result') or '')} bytes, handler produced {hx['size']}", seq=r["s"]))
     # large error path
     for info in w.invocations:
@@ -1325,7 +1408,7 @@ def check_c16(ix, cfg):
             if any(e["i"] == info["n"] and not e.get("ok") for e in ix.kinds["api-end"]):
                 continue
             if "Error" in ret:
-                size = len(json.dumps(ret))
+                size = min(len(json.dumps(ret)), len(json.dumps(ret, ensure_ascii=False).encode()))
                 if size > rl:
                     out.append(V("C16", "large-error-in-response", f"FAILED response of {size} bytes exceeds the limit {rl}", seq=r["s"] if r else 0))
                 if recs:
